@@ -1,6 +1,7 @@
 package main
 
 import (
+	"errors"
 	"fmt"
 	"math/rand"
 	"runtime"
@@ -10,6 +11,8 @@ import (
 	"syscall"
 	"time"
 
+	"github.com/biogo/biogo/seq"
+	"github.com/biogo/biogo/seq/linear"
 	"verif/harness/internal/obs"
 )
 
@@ -239,3 +242,24 @@ func c03Short(s string) string {
 	}
 	return fmt.Sprintf("%s ... [%d bytes] ... %s", s[:120], len(s), s[len(s)-60:])
 }
+
+// c03Picky is a reader template whose SetName and SetDescription refuse some values (an empty name, a name holding '|'
+// or '#', a description holding two blanks in a row): what the reader does with such a refusal is up to it, but it must
+// not panic and must go on returning a record or an error.
+type c03Picky struct{ *linear.QSeq }
+
+func (p c03Picky) SetName(n string) error {
+	if n == "" || strings.ContainsAny(n, "|#") {
+		return errors.New("harness: the template refuses this name")
+	}
+	return p.QSeq.SetName(n)
+}
+
+func (p c03Picky) SetDescription(d string) error {
+	if strings.Contains(d, "  ") {
+		return errors.New("harness: the template refuses this description")
+	}
+	return p.QSeq.SetDescription(d)
+}
+
+func (p c03Picky) Clone() seq.Sequence { return c03Picky{p.QSeq.Clone().(*linear.QSeq)} }
